@@ -103,6 +103,10 @@ pub fn run(seed: u64, count: usize, thorough: bool, out: &mut Out) {
         for a in p.atoms_mut() {
             let q = small_point(&mut rng);
             let _ = a.set_pos(q);
+            // some atoms carry a tensor: a transformation moves the position and touches nothing else
+            if rng.chance(1, 3) {
+                a.set_anisotropic_temperature_factors([[2.0, 0.25, 0.5], [0.25, 1.0, -0.125], [0.5, -0.125, 3.0]]);
+            }
         }
         let t = small_matrix(&mut rng);
         let psx = snap::pdb(&p, &snap::atom);
